@@ -1,8 +1,9 @@
 /* C07 operations on a generated module: the encoder API contract (asn_application.c).
  *
- *   encraw <syn> <val>        the abstract encoder run: der_encode / uper_encode / oer_encode / xer_encode called
- *                             directly with a recording callback
- *                             -> ret=<encoded (bits for uper)> ft=<enc|noenc|null> chunks=<hex,hex,...|->
+ *   encraw <syn> <k> <val>    the abstract encoder run: der_encode / uper_encode / oer_encode / xer_encode called
+ *                             directly with a recording callback that fails (only) at invocation index k (-1: never)
+ *                             -> ret=<encoded (bits for uper)> ft=<enc|noenc|null|-> chunks=<hex,hex,...|->
+ *                             (every invocation's chunk is listed, the refused one included; `.` = empty chunk)
  *   encbuf <syn> <n> <val>    asn_encode_to_buffer into a buffer of exactly n bytes followed by canary bytes
  *                             -> ret=<encoded> errno=<E> canary=ok|BAD wrote=<hex of the first min(n,encoded) bytes>
  *                             (the buffer is pre-filled with 0xa5, so unwritten octets show as a5)
@@ -59,7 +60,7 @@ int ops_gen_c07(int argc, char **argv, FILE *out) {
     int mine = !strcmp(op, "encraw") || !strcmp(op, "encbuf") || !strcmp(op, "encnew") || !strcmp(op, "enccb");
     if(!mine) return 0;
     if(!cur_td) { fputs("no-type", out); return 1; }
-    int valpos = (!strcmp(op, "encbuf") || !strcmp(op, "enccb")) ? 3 : 2;
+    int valpos = (!strcmp(op, "encbuf") || !strcmp(op, "enccb") || !strcmp(op, "encraw")) ? 3 : 2;
     if(argc <= valpos) { fputs("bad-op", out); return 1; }
     enum asn_transfer_syntax syn = gen_syntax(argv[1], 0);
     if(syn == ATS_INVALID) { fputs("bad-op", out); return 1; }
@@ -68,7 +69,7 @@ int ops_gen_c07(int argc, char **argv, FILE *out) {
     if(!st) { fprintf(out, "load-error %s", rf_errmsg); free(v); return 1; }
 
     if(!strcmp(op, "encraw")) {
-        struct rec r; memset(&r, 0, sizeof r); r.fail_at = -1; r.keep_chunks = 1;
+        struct rec r; memset(&r, 0, sizeof r); r.fail_at = strtol(argv[2], 0, 10); r.keep_chunks = 1;
         asn_enc_rval_t er; int have = 1;
         const asn_TYPE_operation_t *o = cur_td->op;
         const char *s = argv[1];
@@ -119,7 +120,7 @@ int ops_gen_c07(int argc, char **argv, FILE *out) {
         fprintf(out, "buf=%s encoded=%zd", nb.buffer ? "nonnull" : "null", nb.result.encoded);
         if(nb.buffer && nb.result.encoded >= 0) {
             size_t n = nb.result.encoded;
-            int exact = e0.encoded == nb.result.encoded && r.len == n && memcmp(r.bytes, nb.buffer, n) == 0;
+            int exact = e0.encoded == nb.result.encoded && r.len == n && (n == 0 || memcmp(r.bytes, nb.buffer, n) == 0);
             int nul = ((char *)nb.buffer)[n] == 0;          /* ASan reports if the terminator is outside the block */
             fprintf(out, " exact=%d nul=%d", exact, nul);
         } else fputs(" exact=- nul=-", out);
